@@ -46,6 +46,7 @@ def _case(draw):
     sched = draw(sc.schedules(max_len=100))
     case = {'n': n, 'edges': edges, 'outcomes': outs, 'workers': workers, 'sched': sched}
     case.update(draw(sc.extras(n)))
+    case.update(draw(sc.preludes(n, with_init=True)))
     if draw(st.integers(0, 5)) == 0:
         case['again'] = draw(st.sampled_from([1, 1, 2]))
     if back:
